@@ -47,7 +47,9 @@ def parseRef (s : String) : Option (List Char × Nat) :=
     | _, _ => none
   | _ => none
 
-def showBN (b : BN) : String := s!"{b.major}.{b.minor}.{b.patch}.{b.build}"
+def showNum (n : Nat) : String := if n = unknownNum then "?" else toString n
+
+def showBN (b : BN) : String := s!"{showNum b.major}.{showNum b.minor}.{showNum b.patch}.{showNum b.build}"
 
 def showBuild (b : RepBuild) : String :=
   (if b.notMerged then "M" else "N") ++ ":" ++ showBN b.bn ++ ":" ++
